@@ -183,3 +183,15 @@ Definition clean (tr : list exch) : bool := forallb (fun x => negb (refusal x)) 
 (* what the library raises for it: HpmError from the *_and_wait drivers and upload_binary,
    the CompletionCodeError itself everywhere else *)
 Definition err_for (q : request) (cc : N) : err := if waits q then HpmError else CCError cc.
+
+(* ---------------------------------------------------------------- long duration commands *)
+(* a Get Upgrade Status reply that reports the long duration command complete
+   (last completion code other than 0x80) *)
+Definition poll_done (rp : reply) : bool :=
+  match rp with
+  | RBytes [0; _; _; lcc] | RBytes [0; _; _; lcc; _] => negb (lcc =? 0x80)
+  | _ => false
+  end.
+(* the polls after an "in progress" answer end with a completion report *)
+Definition polls_complete (polls : list exch) : Prop :=
+  exists pre q rp, polls = pre ++ [(q, rp)] /\ poll_done rp = true.
